@@ -255,8 +255,19 @@ func (v *formatter_) formatContext(collection any) {
 
 func (v *formatter_) formatFloat(float float64) {
 	var str = stc.FormatFloat(float, 'G', -1, 64)
-	if !sts.Contains(str, ".") && !sts.Contains(str, "E") {
-		str += ".0"
+	// The CDCN grammar requires a fraction in front of an exponent and does not
+	// allow leading zeros in the exponent (1E+06 must be written 1.0E+6).
+	var mantissa, exponent, hasExponent = sts.Cut(str, "E")
+	if !sts.Contains(mantissa, ".") {
+		mantissa += ".0"
+	}
+	str = mantissa
+	if hasExponent {
+		var sign = "+"
+		if sts.HasPrefix(exponent, "-") {
+			sign = "-"
+		}
+		str += "E" + sign + sts.TrimLeft(exponent, "+-0")
 	}
 	v.appendString(str)
 }
